@@ -55,6 +55,12 @@ CHECKS['C08'] = ('exploration', 'complete enumeration of condition expression tr
     'and at the end of EVERY time step nobody may still be waiting on an expression that holds.',
     'Trusts the evaluator and the atom snapshots; depth <= 2, histories <= 2 (quick) / 3 (thorough) steps.',
     'DESIGN.md section 3 C08')
+CHECKS['C07'] = ('exploration', 'bounded exhaustive enumeration of until()/run(till) programs on the real kernel vs. a clock model with leave = min(trigger, completion)',
+    'Every program owner:[delay]; until(N){body}; tail with a helper changing flags/tracked values and watched tasks, for every notification kind (delay, dates past/now/future, flag set later/already/set-and-reset, ~flag, tracked comparison, task.done, a|b, a&b), '
+    'every body shape incl. children and nested until with equal/earlier/later deadlines or the very same flag, plus run(till=T) over time-only programs, is executed; every operation must start/end/abort exactly when the clock model says '
+    '(block leaves at the earlier of trigger and completion, ties open), the block never raises its own signal, no child code runs after the leave, the tail is undisturbed, nothing runs later than till.',
+    'Trusts vk/clockmodel.py; trigger times of value-based notifications are read from the observed order of helper records. One open known finding (until(connective) false on entry).',
+    'DESIGN.md section 3 C07')
 PENDING = {}
 
 def main():
